@@ -120,6 +120,13 @@ func verifBuildWorld(sim *verifsim.Sim) *verifWorld {
 	w.name[u("/notes/n3")] = "n3"
 	w.name[u("/missing")] = "fo"
 	w.put("/empty", map[string]any{"type": "OrderedCollection", "totalItems": 0, "orderedItems": []any{}})
+	/* a page of Markdown notes (built side by side when the page is harvested), outside the model's world */
+	mdNotes := []any{}
+	for k := 0; k < 10; k++ {
+		mdNotes = append(mdNotes, map[string]any{"id": u(fmt.Sprintf("/md/n%d", k)), "type": "Note", "mediaType": "text/markdown",
+			"content": fmt.Sprintf("# heading %d\n\nsome *text* number %d with a [link](https://x.example/%d) and `code`\n\n> quote %d", k, k, k, k)})
+	}
+	w.put("/md", map[string]any{"type": "OrderedCollection", "totalItems": len(mdNotes), "orderedItems": mdNotes})
 	/* a Lemmy-style thread (replies filed under "comments"), outside the model's world */
 	w.put("/notes/lp", map[string]any{"type": "Page", "name": "lp", "content": "<p>lemmy post</p>",
 		"comments": map[string]any{"id": u("/notes/lp/comments"), "type": "Collection", "items": []any{u("/notes/lc")}}})
@@ -172,6 +179,13 @@ func verifBuildWorld2(sim *verifsim.Sim) *verifWorld {
 	w.name[u("/notes/q4")] = "q4"
 	w.name[u("/missing")] = "fo"
 	w.put("/empty", map[string]any{"type": "OrderedCollection", "totalItems": 0, "orderedItems": []any{}})
+	/* a page of Markdown notes (built side by side when the page is harvested), outside the model's world */
+	mdNotes := []any{}
+	for k := 0; k < 10; k++ {
+		mdNotes = append(mdNotes, map[string]any{"id": u(fmt.Sprintf("/md/n%d", k)), "type": "Note", "mediaType": "text/markdown",
+			"content": fmt.Sprintf("# heading %d\n\nsome *text* number %d with a [link](https://x.example/%d) and `code`\n\n> quote %d", k, k, k, k)})
+	}
+	w.put("/md", map[string]any{"type": "OrderedCollection", "totalItems": len(mdNotes), "orderedItems": mdNotes})
 	/* a Lemmy-style thread (replies filed under "comments"), outside the model's world */
 	w.put("/notes/lp", map[string]any{"type": "Page", "name": "lp", "content": "<p>lemmy post</p>",
 		"comments": map[string]any{"id": u("/notes/lp/comments"), "type": "Collection", "items": []any{u("/notes/lc")}}})
@@ -1285,6 +1299,53 @@ func TestVerifConc(t *testing.T) {
 				}()
 			}
 			wg.Wait()
+			/* a page of Markdown notes harvested at once, twice at the same time */
+			for k := 0; k < 2; k++ {
+				wg.Add(1)
+				go func() {
+					defer wg.Done()
+					verifkit.Try(func() {
+						if col, ok := pub.New(w.h.URL("/md"), nil).(pub.Container); ok {
+							items, _, _ := col.Harvest(10, 0)
+							for _, it := range items {
+								_ = it.Preview(40)
+							}
+						}
+					})
+				}()
+			}
+			wg.Wait()
+			/* a page that is left (space opens another one) while its background load is still in flight: both loads
+			   must end, each on its own page */
+			jtp.VerifSetCache(256)
+			withheld := map[string]string{"w1": "/notes/n3", "w2": "/notes/q2"}[w.id]
+			gate := make(chan struct{})
+			w.h.Gated(withheld, gate)
+			pc := &verifConc{verifSession: verifNewSession(w, out, sid, false)}
+			pc.s = NewState(80, 24, pc.callback)
+			returned := 0
+			if err := pc.s.Subcommand("open", w.h.URL(w.startP)); err == nil {
+				for waited := 0; waited < 600; waited++ {
+					pc.s.m.Lock()
+					shown := pc.s.mode != loading
+					pc.s.m.Unlock()
+					if shown {
+						break
+					}
+					time.Sleep(5 * time.Millisecond)
+				}
+				pc.s.Update(' ')
+				time.Sleep(5 * time.Millisecond)
+				close(gate)
+				w.h.Ungate(withheld)
+				if pc.settle(10 * time.Second) {
+					returned = 1
+				}
+			} else {
+				close(gate)
+				w.h.Ungate(withheld)
+			}
+			out.Emit(verifkit.M{"ev": "liveness", "sid": sid, "scenario": "page left while its background load is in flight", "issued": 1, "returned": returned})
 		}
 		if sid%3 == 0 {
 			/* a slow media hook that is abandoned with Esc (or another key) before it exits; afterwards
